@@ -32,7 +32,7 @@ fn main() {
         std::process::exit(2);
     }
     let mut c = Check::new("C13", args.tier, "model_checking");
-    c.rule = "(a) every transport (MMIO legacy/modern, PCI) x window size 0..24 (and no window) x 7 access types x every aligned offset up to window+8 plus offsets near usize::MAX, 2^63 and 2^32, reads and writes; (b) DFS over schedules: the device may bump its configuration generation before any individual register read of a multi-field read (at most 3 updates), for block capacity, socket CID, console size, MAC and 9P tag on MMIO and PCI. distinct = distinct observation signatures".into();
+    c.rule = "(a) every transport (MMIO legacy/modern, PCI) x window size 0..24 (and no window) x 7 access types x every aligned offset up to window+8 plus offsets near usize::MAX, 2^63 and 2^32, reads and writes; (b) DFS over schedules: the device may bump its configuration generation before any individual register read of a multi-field read (at most 3 updates in the quick tier, 6 in the thorough tier), for block capacity, socket CID, console size, MAC and 9P tag on MMIO and PCI. distinct = distinct observation signatures".into();
     c.assumptions = vec!["legacy MMIO devices have no configuration generation, so tearing cannot be excluded there and is not explored".into(), "the PCI transport's effective window is a whole number of 32-bit words; refusing the 1-3 tail bytes is permitted".into()];
     // (a)
     let mut ev = 0;
@@ -62,7 +62,9 @@ fn main() {
     // (b)
     for (k, t) in parts() {
         let part = format!("tear:{}:{}", k.name(), t.name());
-        let cfg = DfsConfig::new(&part, c13::MAX_UPDATES as usize);
+        let maxu = if args.tier == vlab::engine::report::Tier::Thorough { 6 } else { c13::MAX_UPDATES };
+        c13::MAX_UPDATES_RT.store(maxu, std::sync::atomic::Ordering::Relaxed);
+        let cfg = DfsConfig::new(&part, maxu as usize);
         let st = dfs::explore(&cfg, &move || c13::run_tear(k, t));
         c.add_dfs(&part, &st);
     }
